@@ -2371,4 +2371,14 @@ theorem placed_iff_failures (pre : Fs) (es : List Entry) (fin : Fs) :
       · exact h
       · rw [if_neg h] at h6; cases h6
 
+/-! ## 10. a concrete merge used by the non-vacuity examples of C18/C19 -/
+
+def exPre : Fs :=
+  ⟨[([], 1, ⟨.dir, 0o755, 0, 0, 0⟩), (["d"], 2, ⟨.dir, 0o700, 0, 0, 0⟩),
+    (["f", "d"], 3, ⟨.file "6f6c64", 0o600, 0, 0, 1000⟩), (["u"], 4, ⟨.file "75", 0o644, 7, 7, 5⟩)], 5⟩
+def exEs : List Entry :=
+  [⟨["f", "d"], .reg "6e6577" (some (1, 5)), 0o644, 0, 0, 77⟩, ⟨["d"], .dir, 0o755, 3, 4, 9⟩,
+   ⟨["g", "d"], .reg "6e6577" (some (1, 5)), 0o644, 0, 0, 77⟩, ⟨["l", "n", "m"], .sym "../../d/f", 0o777, 0, 0, 8⟩]
+def exEnv : Env := ⟨0o022, 0, 0⟩
+
 end Pkgcore.C18
